@@ -74,7 +74,7 @@ var allMethods = []string{"GET", "POST", "PUT", "DELETE", "PATCH", "HEAD", "OPTI
 // ---- generators --------------------------------------------------------------------------------
 
 var (
-	hostLabels = []string{"api", "v2", "my-svc", "example", "internal", "eu-west-1", "x_y", "graph", "cdn"}
+	hostLabels = []string{"api", "v2", "my-svc", "example", "internal", "eu-west-1", "x_y", "graph", "cdn", "Files"}
 	tlds       = []string{"com", "io", "co.uk", "org", "local"}
 	plainSegs  = []string{"users", "v1", "items", "orders", "a", "health", "me", "posts", "Accounts", "V4", "getUser"}
 	dotSegs    = []string{"v1.0", "file.json", "a.b.c", "index.html", "Messages.json"}
@@ -293,6 +293,14 @@ func genRequests(r *sim.Rand, p patInfo, methods []string, n int) []reqSpec {
 		case k == 12:
 			u += "x"
 			kind = "last-segment-longer"
+		case k == 13:
+			// the Host header as some clients send it: other letter case in the host part only
+			if j := strings.Index(u, "/"); j > 0 {
+				u = strings.ToUpper(u[:1]) + u[1:j] + u[j:]
+			} else if len(u) > 0 {
+				u = strings.ToUpper(u[:1]) + u[1:]
+			}
+			kind = "host-letter-case"
 		}
 		out = append(out, reqSpec{Method: pickMethod(), URL: u, Kind: kind, Of: p.URL})
 	}
